@@ -752,7 +752,9 @@ func c06Gen(o *out, r *rng, tier string) {
 		}
 	}
 	// malformed HTTP streams
-	for _, s := range []string{`}`, `{}}`, ` {} `, "{}\n{}\n", `x{}`, `{"text":"a"}{"text":`, `{"a":"\`, `{{}`, `{"text":1}`, `{"text":"a"}{"nope":1}{"text":"b"}`, "\n"} {
+	for _, s := range []string{`}`, `{}}`, ` {} `, "{}\n{}\n", `x{}`, `{"text":"a"}{"text":`, `{"a":"\`, `{{}`, `{"text":1}`, `{"text":"a"}{"nope":1}{"text":"b"}`, "\n",
+		// strings that end in an escaped backslash, escaped quotes, braces inside strings
+		`{"text":"a\\"}{"text":"b"}`, `{"text":"\\"}{"text":"\\\\"}{}`, `{"text":"q\"}{"}{"text":"c:\\d\\"}`, `{"text":"\\\""}{"text":"}"}`} {
 		c := c06Case{tr: "http", shape: "bidi", codec: "j", limit: 64, cl: "u", body: []byte(s), out: outsOf(1), sent: "?"}
 		schedules(c, "malformed")
 	}
